@@ -44,7 +44,7 @@ ASSUMPTIONS = [
 SAMPLES = json.load(open(os.path.join(VERIF, "corpus", "C04", "samples.json")))
 
 
-class Hang(Exception):
+class Hang(BaseException):
     pass
 
 
@@ -237,7 +237,7 @@ OPTION_KEYS = ["one_rr_per_rrset", "ignore_trailing", "raise_on_truncation", "co
 # -------------------------------------------------------------------------------------------------
 # text generators
 # -------------------------------------------------------------------------------------------------
-TOK = ["a", "example.", "www", "@", "$ORIGIN", "$TTL", "$INCLUDE", "$GENERATE", "1-3", "1-3/2", "${0,2,d}", "$", "IN", "CH", "ANY", "NONE",
+TOK = ["a", "example.", "www", "@", "$ORIGIN", "$TTL", "$INCLUDE", "$GENERATE", "1-3", "1-3/2", "${0,2,d}", "${-1,3,x}", "${5,0,n}", "a$", "$", "IN", "CH", "ANY", "NONE",
        "A", "NS", "MX", "TXT", "SOA", "CNAME", "AAAA", "RRSIG", "NSEC", "TYPE65280", "CLASS32", "TYPE0", "\\#", "0", "1", "4", "300", "1w2d", "1h",
        "99999999999", "-1", "1.2.3.4", "::1", "1.2.3", "ff::fg", "\"", "\"\"", "\"a b\"", "\"a", "(", ")", "(", ")", ";c", ";", "\\", "\\.", "\\000", "\\256",
        "\\25", "\\@", "\n", "\n", "\n", " ", "\t", "\r\n", "abcd", "ABCDEF12", "00", "zz", "=", "==", "10", "20240101000000", "20240101", "é", "\x00",
@@ -394,7 +394,17 @@ def eval_case(ctx: Ctx, c: dict):
         t = c["text"]
         kw = {"origin": "example." if c.get("origin") else None, "relativize": bool(c.get("relativize")), "check_origin": bool(c.get("check_origin")), "allow_include": False}
         cls, z, e = guarded(lambda: dns.zone.from_text(t, **kw), zone_level=True)
-        if report(ctx, "zone.from_text", cls, rep, f"zone.from_text({t!r}, {kw}) raised {e!r}"):
+        entry = "zone.from_text"
+        if cls == "HANG" or cls == "FOREIGN:MemoryError":
+            # narrow trigger classes of the two recorded $GENERATE findings (anything else keeps the bare signature)
+            import re
+            for mm in re.finditer(r"\$GENERATE\s+(\d+)-(\d+)", t):
+                if int(mm.group(2)) - int(mm.group(1)) >= 10**6:
+                    entry = "zone.from_text/generate-huge-range"
+            for mm in re.finditer(r"\$\{[-+]?\d+,(\d+)", t):
+                if int(mm.group(1)) >= 10**6 and "$GENERATE" in t:
+                    entry = "zone.from_text/generate-huge-width"
+        if report(ctx, entry, cls, rep, f"zone.from_text({t[:300]!r}, {kw}) raised {e!r}"):
             return
         if cls == "SyntaxError":
             # "zone files adding file and line"
